@@ -401,8 +401,8 @@ Property &vf::property() {
       "magnitudes (outer: |v1|!=|v2| or output not pre-sized; sort: >=3 rows and >=2 columns).",
       {
           {"matmul", gen_matmul, pred_matmul, 1600, 20000, 100},
-          {"matmul_allshapes", gen_matmul_all, pred_matmul_all, 8, 60, 100},
-          {"matvec", gen_matvec, pred_matvec, 40, 400, 100},
+          {"matmul_allshapes", gen_matmul_all, pred_matmul_all, 8, 24, 100},
+          {"matvec", gen_matvec, pred_matvec, 40, 160, 100},
           {"outer", gen_outer, pred_outer, 1200, 15000, 100},
           {"unary", gen_unary, pred_unary, 1600, 20000, 100},
           {"sort", gen_sort, pred_sort, 800, 8000, 100},
